@@ -204,11 +204,85 @@ func c19(args []string) error {
 		ev.Emit(obj{"op": "cpt", "a": a, "b": b, "p": c, "got": s.ContainsPoint(t.A), "map": mp.Name, "src": "rec"})
 		recorded += 7
 	}
+	// ---- large coordinates (up to 2^20): points whose cross product with a long segment is 0, +-1 or +-g;
+	// judged by the limb-arithmetic kernels of BigKernel.tla
+	bigN := nrandom / 8
+	for n := 0; n < bigN; n++ {
+		g := []int{1, 1, 2, 8, 64}[rng.Intn(5)]
+		pdx, pdy := 1+rng.Intn((1<<20)/g), 1+rng.Intn((1<<20)/g)
+		for gcd(pdx, pdy) != 1 {
+			pdy++
+		}
+		if rng.Intn(2) == 0 {
+			pdy = -pdy
+		}
+		dx, dy := pdx*g, pdy*g
+		ax, ay := -dx/2+rng.Intn(1001)-500, -dy/2+rng.Intn(1001)-500
+		bx, by := ax+dx, ay+dy
+		// x,y with pdx*y - pdy*x = 1, reduced into the box of the primitive direction
+		x, y := bezout(pdx, pdy)
+		k := rng.Intn(g)
+		type pt2 struct{ x, y int }
+		cands := []pt2{
+			{ax + x + k*pdx, ay + y + k*pdy},             // cross = +g (one lattice step left of the line)
+			{ax - x + (k+1)*pdx, ay - y + (k+1)*pdy},     // cross = -g
+			{ax + k*pdx, ay + k*pdy},                     // on the segment (a lattice point of it)
+			{bx + pdx, by + pdy},                         // collinear, beyond b
+			{ax + x + k*pdx + pdx, ay + y + k*pdy + pdy}, // parallel neighbour of the first
+			{ax + dx/2, ay + dy/2 + 1},
+		}
+		pi, qi := rng.Intn(len(cands)), rng.Intn(len(cands))
+		P, Q := cands[pi], cands[qi]
+		if absMax(ax, ay, bx, by, P.x, P.y, Q.x, Q.y) > 1<<20+4096 {
+			continue
+		}
+		f := func(x, y int) geometry.Point { return geometry.Point{X: float64(x), Y: float64(y)} }
+		s := geometry.Segment{A: f(ax, ay), B: f(bx, by)}
+		t := geometry.Segment{A: f(P.x, P.y), B: f(Q.x, Q.y)}
+		a, b, c, d := pt(ax, ay), pt(bx, by), pt(P.x, P.y), pt(Q.x, Q.y)
+		ev.Emit(obj{"op": "ray", "a": a, "b": b, "p": c, "got": rayCode(s.Raycast(t.A)), "big": 1, "src": "rec"})
+		ev.Emit(obj{"op": "cpt", "a": a, "b": b, "p": d, "got": s.ContainsPoint(t.B), "big": 1, "src": "rec"})
+		ev.Emit(obj{"op": "col", "a": a, "b": b, "p": c, "got": s.CollinearPoint(t.A), "big": 1, "src": "rec"})
+		ev.Emit(obj{"op": "int", "a": a, "b": b, "c": c, "d": d, "got": s.IntersectsSegment(t), "big": 1, "src": "rec"})
+		ev.Emit(obj{"op": "int", "a": c, "b": d, "c": a, "d": b, "got": t.IntersectsSegment(s), "big": 1, "src": "rec"})
+		ev.Emit(obj{"op": "con", "a": a, "b": b, "c": c, "d": d, "got": s.ContainsSegment(t), "big": 1, "src": "rec"})
+		recorded += 6
+	}
 	printJSON(obj{"rows": len(rows), "maps": len(maps), "evaluations": evals, "mismatches": mism, "recorded": recorded, "events": ev.N})
 	return nil
 }
 
+// bezout returns x, y with dx*y - dy*x = 1 (dx > 0, gcd(dx,|dy|) = 1), 0 <= x < dx
+func bezout(dx, dy int) (int, int) {
+	// extended Euclid on (dx, dy): s*dx + t*dy = 1  =>  y = s, x = -t
+	old_r, r := dx, dy
+	old_s, s := 1, 0
+	old_t, t := 0, 1
+	for r != 0 {
+		q := old_r / r
+		old_r, r = r, old_r-q*r
+		old_s, s = s, old_s-q*s
+		old_t, t = t, old_t-q*t
+	}
+	if old_r < 0 {
+		old_s, old_t = -old_s, -old_t
+	}
+	x, y := -old_t, old_s
+	// shift along the direction so that 0 <= x < dx
+	k := x / dx
+	if x < 0 && x%dx != 0 {
+		k--
+	}
+	return x - k*dx, y - k*dy
+}
+
 func gcd(a, b int) int {
+	if a < 0 {
+		a = -a
+	}
+	if b < 0 {
+		b = -b
+	}
 	for b != 0 {
 		a, b = b, a%b
 	}
